@@ -454,19 +454,27 @@ func (n *Net) DialFrom(src *net.TCPAddr, address, tag string) (*Conn, error) {
 	ca := &Conn{n: n, local: src, remote: dst, in: b2a, out: a2b, tag: tag}
 	cb := &Conn{n: n, local: dst, remote: src, in: a2b, out: b2a, tag: "accepted"}
 	ca.peer, cb.peer = cb, ca
-	l.mu.Lock()
-	if l.closed {
-		l.mu.Unlock()
-		return nil, &net.OpError{Op: "dial", Net: "tcp", Err: syscall.ECONNREFUSED}
-	}
-	l.queue = append(l.queue, cb)
-	l.cond.Broadcast()
-	l.mu.Unlock()
+	// registered BEFORE the connection becomes visible to the listener: a Listener.Close that runs right
+	// after the enqueue closes cb, and that must find it in the registry (it used to be registered
+	// afterwards - a closed connection then stayed listed as open; found by C13 under load)
 	n.mu.Lock()
 	n.conns[ca] = true
 	n.conns[cb] = true
 	n.opened += 2
 	n.mu.Unlock()
+	l.mu.Lock()
+	if l.closed {
+		l.mu.Unlock()
+		n.mu.Lock()
+		delete(n.conns, ca)
+		delete(n.conns, cb)
+		n.opened -= 2
+		n.mu.Unlock()
+		return nil, &net.OpError{Op: "dial", Net: "tcp", Err: syscall.ECONNREFUSED}
+	}
+	l.queue = append(l.queue, cb)
+	l.cond.Broadcast()
+	l.mu.Unlock()
 	return ca, nil
 }
 
